@@ -4,7 +4,7 @@ CONSTANTS MaxVariants, MaxFields, EmitCases
 VARIABLES kind, vs, into
 
 Attrs == {"none", "from", "skip", "types", "forward"}
-NoInto == [n |-> 0, forms |-> {}, sattr |-> FALSE, skip |-> {}, fattr |-> 0, types |-> FALSE]
+NoInto == [n |-> 0, forms |-> {}, sattr |-> FALSE, skip |-> {}, fattr |-> 0, types |-> FALSE, split |-> "one"]
 Init == kind = "init" /\ vs = <<>> /\ into = NoInto
 StartFromStruct == kind = "init" /\ kind' = "from_struct" /\ into' = into
                    /\ \E n \in 0..MaxFields, a \in {"none", "types", "forward"} :
@@ -18,15 +18,17 @@ AddVariant == kind = "from_enum" /\ Len(vs) < MaxVariants /\ \E n \in 0..MaxFiel
                  /\ vs' = Append(vs, [n |-> n, attr |-> a]) /\ UNCHANGED <<kind, into>>
 StartInto == kind = "init" /\ kind' = "into" /\ vs' = vs
              /\ \E n \in 0..MaxFields, forms \in SUBSET {"owned", "ref", "ref_mut"}, sa \in BOOLEAN,
-                  skip \in SUBSET (1..MaxFields), fa \in 0..MaxFields, ty \in BOOLEAN :
+                  skip \in SUBSET (1..MaxFields), fa \in 0..MaxFields, ty \in BOOLEAN, sp \in {"one", "each", "rev"} :
+                  /\ (sp # "one" => Cardinality(forms) >= 2)
                   /\ skip \subseteq 1..n /\ fa <= n /\ (fa # 0 => fa \notin skip)
                   /\ (forms # {} => sa) /\ (ty => sa /\ forms = {} /\ n - Cardinality(skip) >= 1)
-                  /\ into' = [n |-> n, forms |-> forms, sattr |-> sa, skip |-> skip, fattr |-> fa, types |-> ty]
+                  /\ into' = [n |-> n, forms |-> forms, sattr |-> sa, skip |-> skip, fattr |-> fa, types |-> ty, split |-> sp]
 Next == StartFromStruct \/ StartFromEnum \/ AddVariant \/ StartInto
 Spec == Init /\ [][Next]_<<kind, vs, into>>
 
 P_C08_ImplSet   == kind \in {"from_struct", "from_enum"} => ImplSet(vs, kind = "from_enum")
 P_C08_RoundTrip == kind = "into" => RoundTrip(into.n)
+P_C08_IntoMerge == kind = "into" => ImplMergedForms(Spelling(into.forms, into.split)) = into.forms
 P_C08_Order     == kind = "into" =>
     LET c == IntoComponents(into.n, into.skip) IN \A i, j \in 1..Len(c) : i < j => c[i] < c[j]
 Emit == EmitCases /\ kind # "init" /\ (kind = "from_enum" => vs # <<>>) =>
